@@ -254,6 +254,6 @@ func TestC19(t *testing.T) {
 			}
 		}
 	}
-	c19Part.Run(s, hx.PerShard(hx.Pick(24000, 1600000)))
+	c19Part.Run(s, hx.PerShard(hx.Pick(24000, 640000)))
 	c19Part.RunConcurrent(s, 8, hx.Pick(150, 2500))
 }
